@@ -14,8 +14,10 @@ Structured
   every lattice shape with <= 3 (thorough: 4) cells per axis x every axis-aligned decomposition:
   (iii) StructuredFieldMerger.merge_point_fields / merge_cell_fields vs Fc.mergeStructured / pieceEntityIndices
         (single-valued fields -> must equal the whole field; multi-valued point fields -> writer order must match),
-  (iv)  .vti/.vtr/.vts pieces + .pvti/.pvtr/.pvts (ascii, hand-written, shuffled listing order, shifted extents)
-        read back vs the whole file, and vs Fc.pvtkMergeField.
+  (iv)  .vti/.vtr/.vts pieces + .pvti/.pvtr/.pvts (ascii, hand-written, shuffled listing order, shifted extents,
+        .vti optionally with a Direction attribute) read back vs the whole file, vs Fc.pvtkMergeField (entity ids),
+        Fc.pvtrOrdinates, and vs Fc.pvtkReadStructured = the whole `_merge_structured` (op c06rd: mesh object incl. the
+        image origin / spacing / basis, every data array with dtype and shape).
 """
 from __future__ import annotations
 import copy
@@ -393,11 +395,12 @@ def eval_unstructured(ctx, batch, tmpdir):
                 if (rep["f3"] == "1") != f3:
                     ctx.inconsistent(case, "lean f3Class=" + rep["f3"], "python is_f3=%s" % f3)
                 if case["via"] == "mem":
-                    # runtime re-check of C06_unstructured_partial: partition + conforming + not F3 => reads as whole
+                    # runtime re-check of C06_unstructured_hyp_partial (= C06_unstructured_partial + C06_hyp_sound):
+                    # hyp + partition + conforming + not F3 => reads as whole
                     if rep["part"] != "1":
                         ctx.inconsistent(case, "Spec.isPartition=0 on a generated partition", "1")
                     if rep["conf"] == "1" and rep["f3"] == "0" and rep["ok"] != "1":
-                        ctx.inconsistent(case, "model: merged pieces do not read as the whole", "theorem C06_unstructured_partial")
+                        ctx.inconsistent(case, "model: merged pieces do not read as the whole", "theorem C06_unstructured_hyp_partial")
                     if whole_has_no_orphans(case["whole"]) and rep.get("okby") != rep["ok"]:
                         ctx.inconsistent(case, "Spec.readsAsWholeBy=" + str(rep.get("okby")), "Spec.readsAsWhole=" + rep["ok"])
                     if (rep["ok"] == "1") != (model_c == ref_c):
@@ -685,6 +688,8 @@ def write_structured_case(d, case):
     if fmt == "vti":
         gattr += (f' Origin="{" ".join(repr(x) for x in case["origin"])}"'
                   f' Spacing="{" ".join(repr(x) for x in case["spacing"])}"')
+        if case.get("direction"):
+            gattr += f' Direction="{" ".join(repr(float(x)) for row in case["direction"] for x in row)}"'
 
     def piece_xml(b, e):
         pid = _grid_ids(n3, b, e, True)
@@ -730,7 +735,7 @@ def write_structured_case(d, case):
     paths.append(ppath)
     ext = [[v for k in range(3) for v in (b[k] + shift[k], e[k] + shift[k])] for b, e in plist]
     ids = {"point": [_grid_ids(n3, b, e, True) for b, e in plist], "cell": [_grid_ids(n3, b, e, False) for b, e in plist],
-           "blocks": plist}
+           "blocks": plist, "pfields": pfields, "cfields": cfields, "coords": coords}
     return ppath, wpath, paths, ext, ids
 
 
@@ -765,8 +770,99 @@ def gen_structured_file_case(rng, fmt, n3, d3):
         return {"name": name, "dt": dt, "nc": nc, "v": [base + 2 * i for i in range(n * nc)]}
     pf = [field(f"p{k}", npnt) for k in range(rng.randint(1, 2))]
     cf = [field(f"c{k}", ncell) for k in range(rng.randint(1, 2))]
-    return {"kind": "sfile", "fmt": fmt, "n3": list(n3), "d3": [list(x) for x in d3], "order": order, "shift": shift,
+    case = {"kind": "sfile", "fmt": fmt, "n3": list(n3), "d3": [list(x) for x in d3], "order": order, "shift": shift,
             "origin": origin, "spacing": spacing, "ordinates": ords, "coords": coords, "pf": pf, "cf": cf}
+    if fmt == "vti" and rng.random() < 0.4:
+        # a Direction attribute with small dyadic entries (rotation about z / shear + scaling): the origin shift of
+        # (P)VTIReader goes through the basis
+        case["direction"] = rng.choice([[[0.0, -1.0, 0.0], [1.0, 0.0, 0.0], [0.0, 0.0, 1.0]],
+                                        [[1.0, 0.5, 0.0], [0.0, 1.0, 0.0], [0.25, 0.0, 2.0]]])
+    return case
+
+
+def _np_code(dtype):
+    for k, v in NP_DT.items():
+        if np.dtype(v) == dtype:
+            return k
+    return str(dtype)
+
+
+def _enc_np(a, table, grow):
+    """numpy array -> protocol array tokens.  The merger only MOVES data values, so they are transported as ids into a
+    per-case table of the distinct values (like strings; a float64 as a unit count has ~320 digits); `grow=False` (impl
+    output): a value that is not in the table gets a negative id and can never compare equal"""
+    a = np.asarray(a)
+    dt = _np_code(a.dtype)
+    flat = a.reshape(-1)
+    keys = [meshgen.f2u(float(x)) for x in flat] if dt in ("f64", "f32", "f16") else [int(x) for x in flat]
+    if grow:
+        vals = [str(table.setdefault(k, len(table))) for k in keys]
+    else:
+        vals = [str(table.get(k, -1 - i)) for i, k in enumerate(keys)]
+    shape = [str(x) for x in a.shape]
+    return " ".join([dt, str(len(shape))] + shape + [str(len(vals))] + vals)
+
+
+def _units(xs):
+    return [meshgen.f2u(float(x)) for x in xs]
+
+
+def enc_c06rd(case, ext, ids):
+    """the listed piece files as the model sees them: extent, geometry, data arrays as the piece reader returns them"""
+    toks = ["c06rd", str(len(ext))]
+    table = {}
+    basis = case.get("direction") or [[1.0, 0.0, 0.0], [0.0, 1.0, 0.0], [0.0, 0.0, 1.0]]
+    for i, (b, e) in enumerate(ids["blocks"]):
+        toks += [str(x) for x in ext[i]]
+        if case["fmt"] == "vti":
+            toks += ["I"] + [str(u) for u in _units(case["origin"]) + _units(case["spacing"]) +
+                             _units([x for row in basis for x in row])]
+        elif case["fmt"] == "vtr":
+            toks.append("R")
+            for k in range(3):
+                po = case["ordinates"][k][b[k]:e[k] + 1]
+                toks += [str(len(po))] + [str(u) for u in _units(po)]
+        else:
+            pts = ids["coords"][np.array(ids["point"][i], dtype=int)]
+            toks += ["S", str(len(pts))] + [str(u) for u in _units(pts.reshape(-1))]
+        for fields, sel in ((ids["pfields"], ids["point"][i]), (ids["cfields"], ids["cell"][i])):
+            toks.append(str(len(fields)))
+            for name, dt, nc, arr in fields:
+                a = arr[np.array(sel, dtype=int)]
+                toks += [name, _enc_np(a.reshape(-1) if nc == 1 else a, table, True)]
+    return " ".join(toks), table
+
+
+def impl_read_observable(par, table):
+    """(mesh, point fields, cell fields) of a structured MeshFields in the encoding of the driver's c06rd reply"""
+    from fieldcompare.mesh import ImageMesh, RectilinearMesh
+    from fieldcompare.mesh._mesh_fields import remove_cell_type_suffix
+    m = par.domain
+    ext = [str(int(x)) for x in m.extents]
+    if isinstance(m, ImageMesh):
+        mesh = ["I"] + ext + [str(u) for u in _units(m._origin) + _units(m._spacing) +
+                              _units(np.asarray(m._basis).reshape(-1))]
+    elif isinstance(m, RectilinearMesh):
+        mesh = ["R"] + ext
+        for o in m._ordinates:
+            mesh += [str(len(o))] + [str(u) for u in _units(o)]
+    else:
+        pts = np.asarray(m.points)
+        mesh = ["S"] + ext + [str(len(pts))] + [str(u) for u in _units(pts.reshape(-1))]
+
+    def arr(a):
+        return ",".join(_enc_np(a, table, False).split(" "))
+    pf = {f.name: arr(f.values) for f in par.point_fields}
+    cf = {remove_cell_type_suffix(ct, f.name): arr(f.values) for f, ct in par.cell_fields_types}
+    return ",".join(mesh), pf, cf
+
+
+def dec_named(s):
+    out = {}
+    for part in (s.split(";") if s else []):
+        name, _, rest = part.partition(",")
+        out[name] = rest
+    return out
 
 
 def eval_structured_file(ctx, cases, tmpdir):
@@ -789,7 +885,7 @@ def eval_structured_file(ctx, cases, tmpdir):
                                 all(fa[n].dtype == fb[n].dtype and np.array_equal(fa[n], fb[n]) for n in fa))
             err = None
         except Exception as e:  # noqa: BLE001
-            pc = sc = verdict = par_points = None
+            pc = sc = verdict = par_points = par = None
             fields_equal = False
             err = f"{type(e).__name__}: {e}"
         for p in paths:
@@ -819,6 +915,10 @@ def eval_structured_file(ctx, cases, tmpdir):
                          " ".join(" ".join(str(x) for x in e) for e in ext) + " " +
                          " ".join(" ".join([str(len(v))] + [str(x) for x in v]) for v in ids[kind]))
             meta.append((case, kind))
+        # model of the whole `_merge_structured`: mesh object + every data array (dtype, shape, values)
+        rd_line, rd_table = enc_c06rd(case, ext, ids)
+        lines.append(rd_line)
+        meta.append((case, ("read", err, (par, rd_table))))
         if case["fmt"] == "vtr":
             # model of PVTRReader._make_structured_mesh: ordinates of the merged grid
             toks = []
@@ -830,6 +930,31 @@ def eval_structured_file(ctx, cases, tmpdir):
             meta.append((case, ("ordinates", err, par_points)))
     replies = ctx.lean(lines) if ctx.driver_ok else []
     for (case, kind), rep in zip(meta, replies):
+        if isinstance(kind, tuple) and kind[0] == "read":
+            _, ierr, (ipar, itable) = kind
+            if ierr is None:
+                try:
+                    iobs = impl_read_observable(ipar, itable)
+                except Exception as e:  # noqa: BLE001
+                    ierr = f"{type(e).__name__}: {e}"
+            if "model" not in rep or rep.get("hyp") != "1":
+                ctx.inconsistent(case, str(rep)[:300], "c06rd: hyp=1 on a generated decomposition")
+            elif rep["model"] == "E":
+                if ierr is None:
+                    ctx.mismatch(case, "impl reads the file", "model: _merge_structured raises",
+                                 what="structured parallel read: impl vs model")
+            elif ierr is not None:
+                ctx.mismatch(case, ierr, "model reads the file", what="structured parallel read: impl vs model")
+            else:
+                mmesh, mpf, mcf = (rep["model"].split("|") + ["", ""])[:3]
+                got = (mmesh, dec_named(mpf), dec_named(mcf))
+                if hasattr(ctx, "extra"):
+                    ctx.extra["structured_whole_reads_compared"] = ctx.extra.get("structured_whole_reads_compared", 0) + 1
+                if got != iobs:
+                    what = [w for w, a, b in zip(("mesh", "point fields", "cell fields"), got, iobs) if a != b]
+                    ctx.mismatch(case, {"differs": what, "impl_mesh": iobs[0][:200]}, {"model_mesh": mmesh[:200]},
+                                 what="structured parallel read: impl vs model (" + ", ".join(what) + ")")
+            continue
         if isinstance(kind, tuple):
             _, ierr, ipoints = kind
             if "model" not in rep:
@@ -849,7 +974,7 @@ def eval_structured_file(ctx, cases, tmpdir):
             continue
         model = [int(x) for x in rep["model"].split(",")]
         if model != list(range(len(model))):
-            ctx.inconsistent(case, {"kind": kind, "model_merged_ids": model}, "0..n-1 (theorems C06_decomposition + C06_structured_index)")
+            ctx.inconsistent(case, {"kind": kind, "model_merged_ids": model}, "0..n-1 (theorem C06_structured_fields)")
         want_sizes = "|".join(",".join(str(x) for x in ns) for ns in case["d3"])
         if rep["sizes"] != want_sizes:
             ctx.inconsistent(case, {"sizes": rep["sizes"]}, want_sizes)
